@@ -70,4 +70,100 @@ CHECKS["C26"] = dict(
     design_ref="DESIGN.md §4 C26",
 )
 
+CHECKS["C02"] = dict(
+    category='exploration',
+    technique='reference-model property test: type-directed Hypothesis expression trees + generated data, minimal-parenthesis printer, independent evaluator',
+    text='About 38k trees per quick run (>=46% with precedence-decided grouping; 690k thorough) x 3 contexts: value and type through compile_expression (default, sandboxed, unoptimized) and rendered text (default, async) must equal an independent evaluator of the documented semantics (precedence levels, left-associative **, unary vs **, filters on unaries, comparison chains with in/not in, and/or returning operands, else-less conditional -> undefined, attribute-then-item vs item-then-attribute on probe objects with conflicting tables, undefined propagation, call binding with * and **, 30 filters and 33 tests written from the docs) or both raise the same error class. 9/9 mutants killed; found F28 and F43.',
+    note='Docs-to-evaluator transcription; Python operators as the meaning of operator applications; autoescape off; corners the docs leave open are discarded and counted; magnitudes bounded (F19 never executed).',
+    design_ref="DESIGN.md §4 C02",
+)
+
+CHECKS["C14"] = dict(
+    category='exploration',
+    technique="round-trip property test (Hypothesis) + exhaustive enumeration of short number spellings, Python's literal_eval as oracle",
+    text="String literals over all code points in every escape form, both quote styles and adjacent literals; ints in four bases of either case with underscores; float spellings incl. boundary and non-finite values: each must denote exactly Python's value through compile_expression, direct output and a set block. Every string of length <=4 (quick, 245k) / <=5 (thorough, 5.4M) over 0-9 _ . e E x X o O b B + - that the lexer reads as one number token must be accepted by Python with the same value. 6/6 non-equivalent mutants killed.",
+    note='Only valid Python escapes; no raw line breaks inside quotes; |n| < 10**40.',
+    design_ref="DESIGN.md §4 C14",
+)
+
+CHECKS["C20"] = dict(
+    category='exploration',
+    technique='reference-model property test with a recording, perturbing SandboxedEnvironment subclass',
+    text="Arithmetic-heavy, constant-rich trees in 8 template positions (output, set, if, inline-if, filter argument, call argument, macro default, loop filter) under sampled (quick) / all 512 (thorough) subsets of the 9 interceptable operators, sync and async, optimized or not: the hook log must equal the reference log (same applications, order, operands; nothing for non-intercepted operators) and the rendered text must reflect the hook's perturbed results, so folded or natively compiled applications are caught twice. 56k cases quick, 960k thorough; 4/4 mutants killed.",
+    note='Left-to-right operand evaluation as in Python; magnitude-bounded cases only.',
+    design_ref="DESIGN.md §4 C20",
+)
+
+CHECKS["C08"] = dict(
+    category='exploration',
+    technique='metamorphic + differential property test: constant lifting and optimized=False on Hypothesis-generated constant-rich templates',
+    text='Each generated template (outputs, set, block set, if, for, with, macro defaults, filter sections, nested static and runtime-decided autoescape blocks, Markup constants, 45 filters, 30 tests, ~7% ill-typed operands) is compared with two constant-lifted variants, each under optimized=True/False, each with the runtime autoescape flag true and false, across env autoescape on/off, four finalize modes and three undefined types: all observations must agree on text, or on error class and phase (load vs render). 74% of cases actually fold something (measured by a counting CodeGenerator subclass). 21k cases quick, 324k thorough; found F35, F43, F44.',
+    note='Both sides run the current tree (common-mode bugs invisible here, see C15/C16/C02); a variable holding an equal value of the same type is a faithful replacement for a constant; F19 never executed; F36 (finalize/escape order) and F40 (macro eval context across autoescape regions) are listed known findings excluded by construction.',
+    design_ref="DESIGN.md §4 C08",
+)
+
+CHECKS["C11"] = dict(
+    category='exploration',
+    technique='exhaustive short-string enumeration + Hypothesis long texts and comment/raw skeletons against an independent round-trip / whitespace model',
+    text="Every string of <=4 (quick) / <=5 (thorough, +length 6 over 10 symbols) symbols over a 15-symbol alphabet (letters, lone delimiter characters, space, tab, the three line breaks, Unicode whitespace) containing no delimiter start, under all 6 newline_sequence x keep_trailing_newline settings; Unicode texts up to 2000 characters; comment/raw skeletons with delimiter look-alikes under 6 delimiter sets. Two oracles: the whitespace model, and (no '-' and trimming off) a direct 'comments vanish, raw bodies verbatim' check. 80k cases quick; 6/6 mutants killed.",
+    note='Line breaks are exactly \\r\\n, \\r, \\n; no surrogates; comment bodies do not start or end with + or -.',
+    design_ref="DESIGN.md §4 C11",
+)
+
+CHECKS["C12"] = dict(
+    category='exploration',
+    technique='Hypothesis tag skeletons x 24 configurations against an independent whitespace-control model plus two model-free invariants',
+    text='Skeletons with every modifier combination the grammar allows on block, comment, variable and raw tags, own-line tags, Unicode whitespace, line breaks inside tags, 6 delimiter sets, rendered under all 24 trim x lstrip x newline_sequence x keep_trailing_newline settings and compared with a reference model transcribed from the docs; additionally non-whitespace is never lost and variable-only templates are unaffected by the automatic options. 38k skeletons x 24 quick, 512k thorough; 6/6 mutants killed.',
+    note="Model's transcription of the docs; 'whitespace' = str.isspace; lstrip_blocks with whitespace other than space/tab before the tag is not judged (docs and statement differ).",
+    design_ref="DESIGN.md §4 C12",
+)
+
+CHECKS["C39"] = dict(
+    category='exploration',
+    technique='Hypothesis skeletons, line skeletons and fragment soups through Environment.lex against the whitespace model and independent line arithmetic',
+    text="For skeletons and line-statement skeletons under all 8 trim x lstrip x keep_trailing_newline settings and 6 delimiter sets the token values must tile the normalised source exactly minus the left-removed spans predicted by the C12 model, and each token's lineno must equal 1 + the number of line breaks before it (multi-line tags, strings, comments, raw bodies, blank lines after line statements). Fragment soups that lex are judged by a greedy-alignment oracle (only whitespace may be skipped, only before a '-' token or under lstrip_blocks). 80k cases quick, 1.76M thorough; 6/6 mutants killed.",
+    note='Token types are not judged for soups; the atheris target of the design was replaced by the Hypothesis fragment soup.',
+    design_ref="DESIGN.md §4 C39",
+)
+
+CHECKS["C13"] = dict(
+    category='exploration',
+    technique='metamorphic / differential property tests over syntax configurations, each render also checked against the whitespace model',
+    text='(a) the same skeleton under 6 delimiter sets renders identically; (b) line-statement / line-comment form equals block form under trim+lstrip; (c) Template(...) equals Environment(...).from_string; (d) overlay chains equal a fresh environment with the merged options incl. loader cache and extension binding; (e) isolation: 64-120 environments differing by one option each (more than the 50-entry lexer cache and the spontaneous-environment cache), created fresh / by overlay / by Template(), used in a generated interleaving plus sweeps, every render compared with the model prediction for its own configuration. 48k cases quick; 10/10 mutants killed.',
+    note='Whole-line tags are followed by a non-blank line; line comments compared with the {# c +#} spelling (documented: the newline is kept); overlay steps override whole option groups.',
+    design_ref="DESIGN.md §4 C13",
+)
+
+CHECKS["C33"] = dict(
+    category='exploration',
+    technique='property-based test with a reference renderer for trans blocks and a recording validity check for extraction',
+    text='Generated templates of 1-3 translatable items (trans blocks with declared/free variables, pluralize with implicit/explicit count, context, trimmed/notrimmed/policy, bodies with literal %, %(x)s, braces, markup, line breaks; direct _/gettext/ngettext/pgettext/npgettext calls) rendered with recording identity translations in old and new gettext style x autoescape off/on under default or alternative delimiters and trim_blocks: output must equal the source text with variables substituted (values escaped, text not), trimmed as documented, singular iff count == 1; every logged call must use the right function, context and count and its message must be among extract_from_ast / babel_extract results for the same options at a plausible line. 40k cases quick, 800k thorough; 20/20 mutants killed incl. reverting F13.',
+    note='Identity translations; blanks are space/tab/\\n; no whitespace-control markers inside trans blocks; % vs %% spelling of a logged block message not prescribed.',
+    design_ref="DESIGN.md §4 C33",
+)
+
+CHECKS["C34"] = dict(
+    category='exploration',
+    technique="property-based test against a reference native_concat (Python's ast.literal_eval)",
+    text='Three families of native templates: single output expressions over random values (literal-looking strings, bytes, Markup, non-literal objects, undefined); the repr of a random Python literal or near-literal, optionally damaged/padded, cut into pieces rendered as text, variable, constant or through if/for/macro; random piece trees; plus 165 enumerated fixed cases. Each runs under NativeEnvironment.render, async-environment render and render_async, and a sandboxed native environment; expected: None for no output, the identical object for one non-string piece, the literal value of the concatenated text when literal_eval(parse(text)) succeeds, the text otherwise; compared by exact type and value. 80k cases quick, 1.28M thorough; 9/9 non-equivalent mutants killed incl. reverting F14/F15.',
+    note="'Single node' decided at run time; macros return native values (repo test_macro); no finalize configured; text avoids \\r and delimiter starts.",
+    design_ref="DESIGN.md §4 C34",
+)
+
+CHECKS["C36"] = dict(
+    category='fault_enumeration',
+    technique='property-based fault enumeration: every consumer-stop, cancel and data-error point of Hypothesis-generated async template sets, judged with sys.set_asyncgen_hooks',
+    text='For each generated async template set (extends chains, nested/scoped blocks with super(), includes with/without context, imports, macros, call blocks, loops over lists / async generators / async iterators, filtered loops) a dry run counts chunks, suspension points and data calls; every fault point becomes a case: consumer aclose() after k chunks, CancelledError at suspension k (own coroutine runner plus a real asyncio task for a subset), the j-th data call raising, and complete runs. Every async generator whose code belongs to a compiled template or jinja2 must be finished when the render/consumer has finished; no warning or unraisable exception after gc.collect(). 850k fault points over 16k template sets quick, 12M thorough; 6/6 mutants (each aclose site, aclosing) killed.',
+    note='Awaits suspend only at harness points; data-supplied and lazy-filter generators are not judged; F26 (loop-filter generator t_N left open when the fault lands in the body of a filtered loop) is a listed known finding, those points are excluded by construction and counted.',
+    design_ref="DESIGN.md §4 C36",
+)
+
+CHECKS["C37"] = dict(
+    category='exploration',
+    technique='differential schedule exploration: exhaustive gate-release orders (plus random long orders) of 2-3 concurrent asyncio renders vs. solo renders',
+    text="2-3 asyncio tasks render generated templates on one environment (shared cached macro library with gates in the module body and in macros, call blocks, shared parent and includes, per-template globals, loop state, namespaces, cyclers, joiners, autoescape blocks); every await goes through a harness gate; all release orders up to length 6/5 (quick) or 8/7 (thorough) are enumerated per set plus random orders of up to 30 releases; each task's output must equal the same template rendered alone on a fresh environment. 230k schedules quick, 4M thorough; 7/7 non-equivalent seeded state leaks killed.",
+    note='Tasks interleave only at gates; both sides run the same implementation.',
+    design_ref="DESIGN.md §4 C37",
+)
+
 NOT_YET = "check not built yet in this session (see DESIGN.md §8 for the order of work)"
